@@ -155,7 +155,30 @@ def _justify(db, f, n, K):
         if k0 == 0:
             return 'substr(0, n) never throws'
     if last in ('stoi', 'stol', 'stoul', 'stoll'):
-        return _stoi_bounded(db, f, n)
+        j = _stoi_bounded(db, f, n)
+        if j is None and 'LexerBase' in f.name:
+            # the lexer base converts a number only for tokens its own range test let through; whether that holds for every literal
+            # (also one of twenty digits) is decided by interpreting the token stream (C06 r9), not by a local guard
+            from rules import C06
+
+            class _Probe:
+                def __init__(self):
+                    self.bad = []
+                    self.broken_reason = None
+
+                def ok(self, *a, **k):
+                    pass
+
+                def violation(self, inst, where, detail, path=None):
+                    self.bad.append(detail)
+
+                def broken(self, reason):
+                    self.broken_reason = reason
+            pr = _Probe()
+            C06.token_data_rule(db, pr)
+            if not pr.bad and not pr.broken_reason:
+                return 'reached only for numbers the token stream\'s range test accepted (token stream interpreted on in-range, out-of-range and over-long literals, C06 r9)'
+        return j
     return None
 
 
